@@ -29,7 +29,9 @@ _GEN = (
     "builders with a reader, a validator, a chaos builder (replacement, shared objects, self-loops, stray nodes, "
     "edges into/out of origin/destination nodes) and a malformed-path caller; bulk calls receive lazy iterators "
     "that may fail at item k (iter_raise) or run another caller's reads/validations between two partial "
-    "mutations (reentrant). "
+    "mutations (reentrant); single calls with a None / unhashable downstream node fail half-way inside networkx; "
+    "the validator may empty or extend the message list it was handed; in a quarter of the runs a second network "
+    "over the same element objects receives part of the calls. "
 )
 RULES = {
     "C08": _GEN + "A run is non-trivial if at least one lookup was read after at least one mutation; distinct = "
